@@ -86,7 +86,7 @@ def _check_effect_family(args):
             numcols["x"] = val
         gi = np.array([[1 if gidx[r] == c else 0 for c in range(len(cells))] for r in range(len(df))], dtype=np.int64)
         want = len(cells) * c03.dim_of(case["atoms"], nlev, {"x": xw, "z": 1})
-        if rank.is_int_matrix(x) and atoms != "spline":
+        if rank.is_int_matrix(x) and atoms != "spline" and all(rank.is_int_matrix(c) for c in numcols.values()):
             xi = np.round(x).astype(np.int64)
             b_eff = c03.indicator_basis(df, terms, case["icpt"], nlev, numcols)
             b = np.einsum("ij,ik->ijk", gi, b_eff).reshape(len(df), -1)
